@@ -209,7 +209,11 @@ def check_unix_path_function(ctx, f, U, USETT, F_STREAM):
             err = v[2][0][1] if o.kind == 'ret' and v[0] == 'ctor' and v[1] == 'Err' and v[2][0][0] == 'ctor' else None
             if want_err or port is True:
                 w = want_err or 'LdapError::PortInUnixPath'
-                ctx.add('U3.path-function', '%s|error' % (host,), loc(U.root), err == w and not con,
+                # (an empty or absent host together with a port is not a value a Url can hold - url 2.x: "Port with an empty host"
+                # is ParseError::EmptyHost, set_port refuses a URL without host - so which of the two errors such a path of the
+                # constructor answers is not observable; the url crate's parser is trusted)
+                either = not host and port is True and err in ('LdapError::EmptyUnixPath', 'LdapError::PortInUnixPath')
+                ctx.add('U3.path-function', '%s|error' % (host,), loc(U.root), (err == w or either) and not con,
                         'for %s%s the Unix constructor %s; expected %s and no connection' % (shown, ' with a port' if port is True and not want_err else '',
                             'dials %s' % absx.fmt(strip_site(con[0][2][0]))[:60] if con else 'answers %s' % (err or absx.fmt(v)[:50]), w.split('::')[-1]))
                 continue
@@ -459,12 +463,17 @@ def run(ctx):
             # character per invalid sequence - so the two tests agree); "port-bearing" on the UNDECODED host, as the property
             # names it and the code always did: an encoded colon (`%3A`) is part of the socket path, a test on the decoded
             # path would refuse it
+            absent = any(a == ('is', hs, 'Some') and not t for a, t in pcs)
             for a, t in pcs:
                 if a[0] == 'call' and a[1].endswith('::is_empty') and len(a[2]) == 1:
                     nd, rest = decodings(a[2][0], HOST)
+                    if rest == ('lit', '') and absent:
+                        rest = None         # the default that stands for the absent host (`unwrap_or("")`)
                     ctx.add('U3.tests-on-the-host-string', 'empty', loc(U.root), rest is None and nd <= 1, 'the emptiness test of the ldapi path is made on %s, not on the URL\'s host string' % absx.fmt(a[2][0])[:80])
                 elif a[0] == 'call' and a[1].endswith('::contains') and len(a[2]) == 2 and a[2][1] == ('lit', ':'):
                     nd, rest = decodings(a[2][0], HOST)
+                    if rest == ('lit', '') and absent:
+                        rest = None
                     ctx.add('U3.tests-on-the-host-string', 'port', loc(U.root), rest is None and nd == 0,
                             'the ":" test of the ldapi path is made on %s, not on the undecoded host string: %s' % (absx.fmt(a[2][0])[:80],
                                 'a socket path with an encoded colon (`%3A`) is refused as port-bearing' if rest is None else 'which string is tested is not decided'))
